@@ -204,6 +204,23 @@ def pairs():
             pp.create_impedance(net, 3, 2, rft_pu=.02, xft_pu=.04, sn_mva=20., rtf_pu=.05, xtf_pu=.06)
     yield "create_impedance(s)", "impedance", impedances
 
+    def impedances0(net, batch):
+        if batch:
+            pp.create_impedances(net, [2, 3], [3, 2], rft_pu=[.01, .02], xft_pu=[.03, .04], sn_mva=[10., 20.], rft0_pu=[.1, .2], xft0_pu=[.3, .4],
+                                 gf0_pu=[.01, .02], bf0_pu=[.03, .04])
+        else:
+            pp.create_impedance(net, 2, 3, rft_pu=.01, xft_pu=.03, sn_mva=10., rft0_pu=.1, xft0_pu=.3, gf0_pu=.01, bf0_pu=.03)
+            pp.create_impedance(net, 3, 2, rft_pu=.02, xft_pu=.04, sn_mva=20., rft0_pu=.2, xft0_pu=.4, gf0_pu=.02, bf0_pu=.04)
+    yield "create_impedance(s) with zero-sequence values", "impedance", impedances0
+
+    def switches_t3(net, batch):
+        pp.create_transformer3w_from_parameters(net, 0, 2, 4, 110., 20., 10., 63., 40., 25., 10.4, 10.5, 10.6, .28, .32, .35, 35., .089)
+        if batch:
+            pp.create_switches(net, [0, 4], [0, 0], ["t3", "t3"], closed=[True, False])
+        else:
+            pp.create_switch(net, 0, 0, "t3", closed=True); pp.create_switch(net, 4, 0, "t3", closed=False)
+    yield "create_switch(es) at a three-winding transformer only", "switch", switches_t3
+
     def poly(net, batch):
         pp.create_gen(net, 2, 1.); pp.create_gen(net, 3, 1.)
         if batch:
@@ -298,6 +315,15 @@ def rejections():
         else:
             pp.create_poly_cost(net, 0, "gen", 1.); pp.create_poly_cost(net, 0, "gen", 2.)
     yield "the same element twice in one batch", dup_in_batch
+
+    def switch_other_line(net, batch):
+        # line 0 = 2-3, line 1 = 4-5: bus 4 is a bus of some listed line, not of line 0
+        pp.create_line_from_parameters(net, 2, 3, 1., .1, .1, 10., .3); pp.create_line_from_parameters(net, 4, 5, 1., .1, .1, 10., .3)
+        if batch:
+            pp.create_switches(net, [4, 2], [0, 1], "l")
+        else:
+            pp.create_switch(net, 4, 0, "l"); pp.create_switch(net, 2, 1, "l")
+    yield "switch at a line that is not connected to the switch's bus (another listed line is)", switch_other_line
 
     def missing_bus(net, batch):
         if batch:
